@@ -592,6 +592,13 @@ func (c *Ctx) RuleSiblingLocator() *Result {
 				diff = d2
 			}
 		}
+		if diff != "" && sameMatchAtoms(c.locatorAtoms(locs[0].fn), c.locatorAtoms(l.fn)) && (hasAtom(c.locatorAtoms(locs[0].fn), "search-by-library-call") != hasAtom(c.locatorAtoms(l.fn), "search-by-library-call")) {
+			// one side walks the lines by hand, the other lets slices.IndexFunc do it: the same patterns
+			// are matched, but that the two algorithms select the same line is a statement about all
+			// inputs that the comparison of shapes cannot settle
+			res.undecided(key, c.P.InstrPos(l.to), "the rule line is located by two different algorithms when it is written and when it is read back (one is a hand-written loop, the other a library search with the same patterns): whether they always select the same line cannot be decided by comparing them; rewrite both the same way or share one helper ("+diff+")")
+			continue
+		}
 		if diff != "" {
 			res.bad(key, c.P.InstrPos(l.to), "the rule line is located differently when it is written and when it is read back: "+diff)
 		} else {
@@ -606,6 +613,7 @@ func (c *Ctx) RuleSiblingLocator() *Result {
 // same package are inlined (two levels).
 func (c *Ctx) locatorAtoms(fn *ssa.Function) []string {
 	var atoms []string
+	libSearches := 0
 	seen := map[*ssa.Function]bool{}
 	var patternAtom func(v ssa.Value, in *ssa.Function, d int) string
 	patternAtom = func(v ssa.Value, in *ssa.Function, d int) string {
@@ -621,6 +629,56 @@ func (c *Ctx) locatorAtoms(fn *ssa.Function) []string {
 					}
 				}
 				return "compiled(?)"
+			}
+		case *ssa.UnOp:
+			// a variable of the enclosing function captured by a closure
+			if fv, ok := x.X.(*ssa.FreeVar); ok && x.Op == token.MUL && in.Parent() != nil && d < 3 {
+				idx := -1
+				for i, f := range in.FreeVars {
+					if f == fv {
+						idx = i
+					}
+				}
+				parent := in.Parent()
+				var out string
+				allInstrs(parent, func(pi ssa.Instruction) {
+					mc, ok := pi.(*ssa.MakeClosure)
+					if !ok || mc.Fn != ssa.Value(in) || idx < 0 || idx >= len(mc.Bindings) || out != "" {
+						return
+					}
+					if al, ok := mc.Bindings[idx].(*ssa.Alloc); ok {
+						for _, r := range referrers(al) {
+							if st, ok := r.(*ssa.Store); ok && st.Addr == ssa.Value(al) {
+								out = patternAtom(st.Val, parent, d+1)
+							}
+						}
+					} else {
+						out = patternAtom(mc.Bindings[idx], parent, d+1)
+					}
+				})
+				if out != "" {
+					return out
+				}
+			}
+		case *ssa.FreeVar:
+			if in.Parent() != nil && d < 3 {
+				idx := -1
+				for i, f := range in.FreeVars {
+					if f == x {
+						idx = i
+					}
+				}
+				parent := in.Parent()
+				var out string
+				allInstrs(parent, func(pi ssa.Instruction) {
+					mc, ok := pi.(*ssa.MakeClosure)
+					if ok && mc.Fn == ssa.Value(in) && idx >= 0 && idx < len(mc.Bindings) && out == "" {
+						out = patternAtom(mc.Bindings[idx], parent, d+1)
+					}
+				})
+				if out != "" {
+					return out
+				}
 			}
 		case *ssa.Parameter:
 			if d < 2 {
@@ -676,6 +734,28 @@ func (c *Ctx) locatorAtoms(fn *ssa.Function) []string {
 				if sf := staticFn(&x.Call); sf != nil && c.P.IsRepoFn(sf) && load.FnPkgPath(sf) == load.FnPkgPath(fn) {
 					walk(sf, d+1)
 				}
+				for _, arg := range x.Call.Args {
+					if af, ok := arg.(*ssa.Function); ok && c.P.IsRepoFn(af) {
+						walk(af, d+1) // a function literal without captured variables
+					}
+				}
+				// a library search driven by a predicate (slices.IndexFunc(lines, re.Match)) is a search loop of its own
+				if f := staticCallee(&x.Call); f != nil && objPkgPath(f) == "slices" && (f.Name() == "IndexFunc" || f.Name() == "ContainsFunc") {
+					libSearches++
+				}
+			case *ssa.MakeClosure:
+				cf, ok := x.Fn.(*ssa.Function)
+				if !ok {
+					break
+				}
+				if strings.Contains(cf.Synthetic, "bound method") && len(x.Bindings) == 1 && isRegexpPtr(x.Bindings[0]) {
+					// re.Match handed over as a predicate
+					atoms = append(atoms, "match:"+patternAtom(x.Bindings[0], f, 0))
+					break
+				}
+				if c.P.IsRepoFn(cf) {
+					walk(cf, d+1)
+				}
 			}
 		})
 	}
@@ -706,6 +786,9 @@ func (c *Ctx) locatorAtoms(fn *ssa.Function) []string {
 				}
 			}
 		}
+	}
+	if libSearches > 0 {
+		atoms = append(atoms, "search-by-library-call")
 	}
 	atoms = append(atoms, fmt.Sprintf("search-loops:%d", nLoops))
 	sort.Strings(atoms)
@@ -945,4 +1028,36 @@ func (c *Ctx) returnsTransformed(fn *ssa.Function, depth int) string {
 		walk(r.Results[0], 0)
 	})
 	return why
+}
+
+func hasAtom(atoms []string, a string) bool {
+	for _, x := range atoms {
+		if x == a {
+			return true
+		}
+	}
+	return false
+}
+
+// sameMatchAtoms: the two locators match the same set of patterns.
+func sameMatchAtoms(a, b []string) bool {
+	set := func(xs []string) map[string]bool {
+		m := map[string]bool{}
+		for _, x := range xs {
+			if strings.HasPrefix(x, "match:") {
+				m[x] = true
+			}
+		}
+		return m
+	}
+	ma, mb := set(a), set(b)
+	if len(ma) != len(mb) {
+		return false
+	}
+	for k := range ma {
+		if !mb[k] {
+			return false
+		}
+	}
+	return true
 }
